@@ -119,6 +119,6 @@ func runC06(c *Ctx) {
 		if cfg.algo == "gradient2" || cfg.initial > 100 || (cfg.algo == "vegas" && cfg.probe < 4) {
 			continue
 		}
-		c.runBFS(limModel(cfg, c06Hooks(level)), mc.BFSOptions{MaxDepth: depth, DevBound: c.Pick(1, 2), MaxStates: 300000})
+		c.runBFS(limModel(cfg, c06Hooks(level)), mc.BFSOptions{MaxDepth: depth, DevBound: c.Pick(1, 2), MaxStates: c.Pick(300000, 3000000)})
 	}
 }
